@@ -32,23 +32,8 @@ def frame_offsets(pieces):
 
 
 def classify(pieces, cuts):
-    offs = frame_offsets(pieces)
-    for (a, b, k) in offs:
-        if k == "F":
-            for c in cuts:
-                if a < c < a + 6 and c < b:
-                    return "D6-cut-in-marker"
-    for i, (a, b, k) in enumerate(offs):
-        if k == "G" and i > 0:
-            return "D6-garbage-after-frame"
-    for i, (a, b, k) in enumerate(offs[:-1]):
-        # junk in front of a frame is counted when the decoder asks "is the frame complete?": a read that
-        # ends within the last len(junk) bytes of the frame makes it parse the incomplete frame and drop it
-        if k == "G" and offs[i + 1][2] == "F":
-            fa, fb = offs[i + 1][0], offs[i + 1][1]
-            junk = fa - max([a] + [c for c in cuts if a < c <= fa])      # junk still in the buffer when the frame starts arriving
-            if junk > 0 and any(max(fa + 1, fb - junk) <= c < fb for c in cuts):
-                return "D8-junk-prefix-counted-in-length"
+    """No known-finding class is left for C03: the three classes of the ledger (a read ending inside the marker, marker-free
+    bytes after a frame, junk in front of a frame counted in the completeness test) were repaired in Codec.decode."""
     return None
 
 
@@ -57,8 +42,8 @@ def gen_stream(rng, small):
     pieces = []
     for i in range(n):
         if rng.random() < 0.15:
-            g = bytes(rng.choice(b"\x00\x01 =|xyz9AFIX.") for _ in range(rng.randrange(1, 9)))
-            if b"8=FIX." not in g:
+            g = gen_garbage(rng)
+            if g:
                 pieces.append(("G", g))
         m = cc.gen_wf_message(rng, max_groups=0 if small else 2)
         if small:
@@ -68,7 +53,33 @@ def gen_stream(rng, small):
             pieces.append(("F", f))
     if not any(k == "F" for k, _ in pieces):
         pieces.append(("F", cc.encode_frame(rng, [cc.cp("0"), []])))
+    if rng.random() < 0.08:
+        g = gen_garbage(rng)            # marker-free bytes after the last frame
+        if g:
+            pieces.append(("G", g))
     return pieces
+
+
+def gen_garbage(rng):
+    """marker-free bytes; may contain (and end with) proper prefixes of the marker and look-alikes of fields"""
+    parts = []
+    for _ in range(rng.randrange(1, 4)):
+        r = rng.random()
+        if r < 0.5:
+            parts.append(bytes(rng.choice(b"\x00\x01 =|xyz9AFIX.") for _ in range(rng.randrange(1, 9))))
+        elif r < 0.8:
+            parts.append(b"8=FIX."[: rng.randrange(1, 6)])
+        else:
+            parts.append(rng.choice([b"\x0110=123\x01", b"9=5\x01", b"10=", b"\x01"]))
+    g = b"".join(parts)
+    return g if b"8=FIX." not in g else b""
+
+
+def residual_ok(pieces, residual):
+    """what may stay in the buffer: nothing, or - after trailing garbage - a proper prefix of the marker that ends the stream"""
+    if not residual:
+        return True
+    return pieces[-1][0] == "G" and 0 < len(residual) < 6 and b"8=FIX.".startswith(residual) and pieces[-1][1].endswith(residual)
 
 
 def check(ctx, pieces, cuts, model_res=None, register=True):
@@ -84,7 +95,7 @@ def check(ctx, pieces, cuts, model_res=None, register=True):
         ctx.count("chunks=%d" % min(len(chunks), 6))
         ctx.traces += 1
     got = [bytes(r) for _, r in impl[1]]
-    if got != frames or impl[0]:
+    if got != frames or not residual_ok(pieces, bytes(impl[0])):
         ctx.fail(case, "delivered %d of %d frames (residual buffer %d bytes)" % (len(got), len(frames), len(impl[0])),
                  classify(pieces, cuts))
     if model_res is not None and impl != model_res:
@@ -165,4 +176,4 @@ def replay(path):
     frames = [b for k, b in pieces if k == "F"]
     got = [bytes(r) for _, r in impl[1]]
     print("stream of %d frames, cuts %s -> delivered %d, residual %d bytes" % (len(frames), c["cuts"], len(got), len(impl[0])))
-    return 0 if (got == frames and not impl[0]) else 1
+    return 0 if (got == frames and residual_ok(pieces, bytes(impl[0]))) else 1
